@@ -530,7 +530,7 @@ int32_t jls_wr_fsr_data(struct jls_core_fsr_s * self, int64_t sample_id, const v
                 f64[idx] = NAN;
             }
         } else {
-            buf_sz = (sizeof(self->buffer_u64) * sample_size_bits) / 8;
+            buf_sz = (sizeof(self->buffer_u64) * 8) / sample_size_bits;
             memset(self->buffer_u64, 0, sizeof(self->buffer_u64));
         }
         while (skip) {
